@@ -32,15 +32,19 @@ confirm)
   [ $rc_suite = 0 ] && [ $rc_with != 0 ] && [ $rc_without = 0 ]
   ;;
 check)
+  # applies the patch in a private scratch worktree (never /repo itself) and runs the listed quick checks on it
   patch=$1; shift
-  [ -z "$(git -C /repo status --porcelain)" ] || { echo "/repo not clean"; exit 2; }
-  git -C /repo apply "$patch" || { echo "patch does not apply to /repo"; exit 2; }
+  export GOFLAGS=-mod=mod GOPROXY=off GOSUMDB=off GOTOOLCHAIN=local GOWORK=off PATH=/opt/veriftools/go1.26.8/bin:$PATH
+  bin=/tmp/atlascheck.seed.$$
+  ( cd /verif/atlascheck && go build -o $bin . ) || exit 2
+  wt=/tmp/wt/seedcheck-$$
+  git -C /repo worktree add -q --detach $wt HEAD || exit 2
+  tmp=$(mktemp -d /tmp/seedcheck.XXXXXX)
+  trap 'git -C /repo worktree remove --force '$wt' >/dev/null 2>&1; rm -rf '$tmp' '$bin EXIT
+  git -C $wt apply "$patch" || { echo "patch does not apply"; exit 2; }
   for p in "$@"; do
-    out=$(cd /verif && ./run.sh $p quick 2>&1); rc=$?
+    out=$($bin -repo $wt -prop $p -tier quick -out $tmp/$p 2>&1); rc=$?
     if [ $rc = 0 ]; then echo "MISSED $p"; else echo "CAUGHT $p: $(echo "$out" | grep -A1 '^VIOLATION' | grep 'rule=' | head -3 | tr '\n' ' ')"; fi
   done
-  git -C /repo checkout -- . ; git -C /repo clean -fdq
-  # restore evidence produced on the unchanged tree
-  for p in "$@"; do (cd /verif && ./run.sh $p quick >/dev/null 2>&1); done
   ;;
 esac
